@@ -472,6 +472,14 @@ type serverConn struct {
 	pingTimeout                 time.Duration
 	readIdleTimer               *time.Timer // nil if unused
 
+	// SETTINGS_HEADER_TABLE_SIZE values received while a frame was being
+	// written by writeFrameAsync, which owns hpackEncoder. They are applied
+	// by wroteFrame. Only the smallest and the last value matter to HPACK
+	// (RFC 7541 Section 4.2).
+	pendingTableSize     bool
+	pendingTableSizeMin  uint32
+	pendingTableSizeLast uint32
+
 	// Owned by the writeFrameAsync goroutine:
 	headerWriteBuf bytes.Buffer
 	hpackEncoder   *hpack.Encoder
@@ -1204,6 +1212,15 @@ func (sc *serverConn) wroteFrame(res frameWriteResult) {
 	sc.writingFrame = false
 	sc.writingFrameAsync = false
 
+	if sc.pendingTableSize {
+		// The frame writer is done with the HPACK encoder: apply the
+		// header table size changes received in the meantime, before
+		// the next frame (and the SETTINGS ACK) is written.
+		sc.pendingTableSize = false
+		sc.hpackEncoder.SetMaxDynamicTableSize(sc.pendingTableSizeMin)
+		sc.hpackEncoder.SetMaxDynamicTableSize(sc.pendingTableSizeLast)
+	}
+
 	if res.err != nil {
 		sc.conn.Close()
 	}
@@ -1641,7 +1658,7 @@ func (sc *serverConn) processSetting(s Setting) error {
 	}
 	switch s.ID {
 	case SettingHeaderTableSize:
-		sc.hpackEncoder.SetMaxDynamicTableSize(s.Val)
+		sc.setHeaderTableSize(s.Val)
 	case SettingEnablePush:
 		sc.pushEnabled = s.Val != 0
 	case SettingMaxConcurrentStreams:
@@ -1668,6 +1685,23 @@ func (sc *serverConn) processSetting(s Setting) error {
 		}
 	}
 	return nil
+}
+
+// setHeaderTableSize applies the peer's SETTINGS_HEADER_TABLE_SIZE to the
+// HPACK encoder. The encoder is owned by the frame writer: while a frame is
+// being written on the writeFrameAsync goroutine (which may be encoding a
+// header block), the change is recorded and applied by wroteFrame instead.
+func (sc *serverConn) setHeaderTableSize(val uint32) {
+	sc.serveG.check()
+	if !sc.writingFrameAsync {
+		sc.hpackEncoder.SetMaxDynamicTableSize(val)
+		return
+	}
+	if !sc.pendingTableSize || val < sc.pendingTableSizeMin {
+		sc.pendingTableSizeMin = val
+	}
+	sc.pendingTableSizeLast = val
+	sc.pendingTableSize = true
 }
 
 func (sc *serverConn) processSettingInitialWindowSize(val uint32) error {
